@@ -101,7 +101,7 @@ func (f *Fragmentation) Process(id uint32, first, last uint16, more bool, vv buf
 
 	f.mu.Lock()
 	f.size += consumed
-	if done {
+	if done || r.isBroken() {
 		f.release(r)
 	}
 	// Evict reassemblers if we are consuming more memory than highLimit until
